@@ -312,10 +312,14 @@ def o134(ctx):
                     ctx.finding(q, e.node, f"{name} folds in place into an array that may alias an input mask (not a fresh copy)", e.node, m)
 
 
-def obligations():
+def _obligations():
     return [
         Obligation("O13.1", "sphere / cylinder voxels satisfy the analytic inequalities (<=, floor(h/2)); outward blur grows the solid", o131, floor=300),
         Obligation("O13.2", "shells are outer minus inner solid with radii r +- t/2", o132, floor=90),
         Obligation("O13.3", "generate_mask passes each pattern group to the parameter the pattern names", o133, floor=12),
         Obligation("O13.4", "union/intersection/subtraction/difference truth tables, [0,1] range, in-place folds only on fresh arrays", o134, floor=150),
     ]
+
+
+def obligations():
+    return _obligations() + [effects_obligation("C13")]
